@@ -44,6 +44,8 @@ def random_config(rng, wrappers=("interval",), allow_f32=True, levy=None, shapes
             cfg["dt"] = None  # filled by history generator ("right" needs the step size)
         cfg["cache"] = rng.choice([0, 1, 2, 5, 45, None])
         cfg["supply"] = rng.choice(["none", "none", "none", "W", "WH"])
+        # pool_size is a documented option (entropy pool of every node's SeedSequence; numpy's minimum is 4)
+        cfg["pool"] = rng.choice([8, 8, 8, 4, 5, 16, 24])
     elif wrapper == "path":
         cfg["t1"] = t0 + 1.0
         cfg["levy"] = "none"
@@ -52,6 +54,7 @@ def random_config(rng, wrappers=("interval",), allow_f32=True, levy=None, shapes
         cfg["levy"] = "none"
         cfg["tol"] = rng.choice([1e-3, 1e-6, 1e-6, 5e-4])
         cfg["supply"] = rng.choice(["none", "none", "W"])
+        cfg["pool"] = rng.choice([24, 24, 4, 8])
     return cfg
 
 
@@ -126,6 +129,8 @@ def build(cfg, step_hint=None):
         kw = dict(t0=cfg["t0"], t1=cfg["t1"], size=shape, dtype=dtype, entropy=cfg["entropy"],
                   tol=cfg["tol"], cache_size=cfg["cache"], halfway_tree=cfg["halfway"],
                   levy_area_approximation=cfg["levy"], dt=dt)
+        if cfg.get("pool") is not None:
+            kw["pool_size"] = cfg["pool"]
         if W is not None:
             kw["W"] = W
             if cfg["levy"] == "none" and H is not None:
@@ -145,7 +150,8 @@ def build(cfg, step_hint=None):
     if w == "tree":
         w0 = torch.randn(shape, dtype=dtype, generator=g)
         w1 = None if W is None else w0 + W
-        bm = torchsde.BrownianTree(t0=cfg["t0"], w0=w0, t1=cfg["t1"], w1=w1, entropy=cfg["entropy"], tol=cfg["tol"])
+        kw = {"pool_size": cfg["pool"]} if cfg.get("pool") is not None else {}
+        bm = torchsde.BrownianTree(t0=cfg["t0"], w0=w0, t1=cfg["t1"], w1=w1, entropy=cfg["entropy"], tol=cfg["tol"], **kw)
         meta["w0"] = w0
         if w1 is not None:
             meta["W"] = w1 - w0  # what BrownianTree itself hands to the interval
